@@ -441,6 +441,7 @@ func cmdCheck(argv []string) int {
 	nConfirmed := 0
 	replays := 0
 	classCount := map[string]int{}
+	var harnessPanics []string
 	for _, v := range allViol {
 		rs := violRun[v]
 		key := violationKey(v) + "|" + rs.Harness + fmt.Sprint(rs.Args)
@@ -448,6 +449,10 @@ func cmdCheck(argv []string) int {
 			continue
 		}
 		seen[key] = true
+		if v.Kind == "panic" && (strings.HasPrefix(v.Where, harnessModule+"/") || strings.HasPrefix(v.Where, "("+harnessModule+"/")) {
+			harnessPanics = append(harnessPanics, fmt.Sprintf("%s in %s (%s%v)", v.Msg, v.Where, rs.Harness, rs.Args))
+			continue
+		}
 		if (v.Kind == "panic" || v.Kind == "hang") && !spec.OwnsPanic {
 			aborted = append(aborted, fmt.Sprintf("%s in %s on %s (owned by C12)", v.Kind, v.Where, showInputs(v.Inputs)))
 			continue
@@ -605,6 +610,10 @@ func cmdCheck(argv []string) int {
 	}
 	for _, a := range limitStrings(aborted, 5) {
 		fmt.Printf("  aborted: %s\n", a)
+	}
+	if len(harnessPanics) > 0 {
+		fmt.Printf("BROKEN: property=%s the harness itself panicked: %v\n", id, limitStrings(harnessPanics, 3))
+		return 2
 	}
 	if len(e.disagreements) > 0 {
 		fmt.Printf("BROKEN: property=%s solvers disagree on %d assertion queries: %v\n", id, len(e.disagreements), limitStrings(e.disagreements, 3))
